@@ -144,11 +144,11 @@ func GenTableDoc(r *Rng) DocSpec {
 	return DocSpec{C: []*NodeSpec{top}}
 }
 
-// GenDeepDoc draws a chain 7-12 elements deep with a little fan-out.
+// GenDeepDoc draws a chain 8-14 elements deep with a little fan-out.
 func GenDeepDoc(r *Rng) DocSpec {
 	top := &NodeSpec{K: "e", N: r.Pick(ElemNames)}
 	cur := top
-	for d := r.Range(7, 12); d > 0; d-- {
+	for d := r.Range(8, 14); d > 0; d-- {
 		c := &NodeSpec{K: "e", N: r.Pick(ElemNames[:4])}
 		if r.Chance(1, 3) {
 			c.A = append(c.A, [2]string{r.Pick(AttrNames), r.Pick(Values)})
